@@ -11,6 +11,8 @@ import json
 import random
 import traceback
 
+import numpy as np
+
 import dyn
 import scen
 from common import run_driver, coq_eval_cases, Inexact
@@ -33,7 +35,11 @@ def run(ctx, spec):
         base = gen.pick_scenario()
         for e in range(nenv):
             if same and e > 0:
-                if rng.random() < 0.5:
+                if rng.random() < 0.25 and "names" not in base[1] or rng.random() < 0.1:
+                    # the same scenario with its OS / service / process names listed in another order
+                    sdp = scen.permuted_sibling(base[1])
+                    scen_list.append((base[0] + "~permuted", sdp, scen.sd_to_scenario(sdp)))
+                elif rng.random() < 0.5:
                     scen_list.append(base)
                 else:
                     # a different scenario with the same layout: same sizes of everything, other content
@@ -53,11 +59,37 @@ def run(ctx, spec):
         for name, sd, sc in scen_list:
             keys.append((tuple(sd["bounds"]), tuple(tuple(x) for x in scen.names(sd))))
         name_ids = {}
-        stats["same_layout_cases" if len(set(keys)) == 1 else "mixed_layout_cases"] += 1
+        same_keys = len(set(keys)) == 1
+        stats["same_layout_cases" if same_keys else "mixed_layout_cases"] += 1
         runners = {}
         flats = {}
         mops, impl_outs = [], []
         created = []
+        held = {}          # env index -> (the Observation object it holds, copy of its content, copy of its state)
+
+        def hold(i_):
+            e_ = runners[i_].env
+            lo = getattr(e_, "last_obs", None)
+            held[i_] = (lo, None if lo is None else np.array(lo.tensor, copy=True),
+                        np.array(e_.current_state.tensor, copy=True))
+
+        def others_untouched(i_, idx_):
+            for j_, (lo, oc, sc_) in held.items():
+                if j_ == i_:
+                    continue
+                e_ = runners[j_].env
+                what = None
+                if lo is not None and (e_.last_obs is not lo or not np.array_equal(np.asarray(lo.tensor), oc)):
+                    what = "the observation another environment holds (last_obs)"
+                elif not np.array_equal(np.asarray(e_.current_state.tensor), sc_):
+                    what = "the state of another environment"
+                if what:
+                    out["violations"].append(dict(
+                        kind="interleaving", property=pid, failing_input_found=True, signature=None if same_keys else "layout-cell-differs",
+                        what=f"an operation on environment {i_} changed {what} (environment {j_})", op_index=idx_,
+                        ops=[x if x[0] != 0 else [0, x[1], "<scenario>", x[3], x[4]] for x in mops],
+                        scenarios=[s_[1] for s_ in scen_list]))
+                    hold(j_)
         n = rng.randint(*nops)
         try:
             for step in range(n):
@@ -75,6 +107,8 @@ def run(ctx, spec):
                     created.append(i)
                     mops.append([0, i, scen.sd_wire(sd), modes, nid])
                     impl_outs.append([7])
+                    hold(i)
+                    others_untouched(i, len(mops) - 1)
                     continue
                 i = rng.choice(created)
                 r = runners[i]
@@ -102,6 +136,8 @@ def run(ctx, spec):
                     impl_outs.append(r.run_op(op))
                 except Inexact:
                     impl_outs.append([9])
+                hold(i)
+                others_untouched(i, len(mops) - 1)
         except Inexact:
             raise
         cmds.append([12, mops])
@@ -163,7 +199,7 @@ def run(ctx, spec):
                         ops=[x if x[0] != 0 else [0, x[1], "<scenario>", x[3], x[4]] for x in mops]))
                     break
     # ---- constructing an environment must not depend on what was constructed before ----
-    import numpy as np
+    pass
     import nasim
     import hashlib
     from check_gen import fingerprint
@@ -181,6 +217,37 @@ def run(ctx, spec):
                     what=f"make_benchmark_scenario('{name}') with the global generator seeded to {100 + s0} builds a "
                          f"different scenario after make_benchmark_scenario('{name}', seed={3 + s0}) was called first",
                     name=name))
+    # ---- loading a document must not depend on the documents loaded before it
+    import copy
+    import check_load
+    docs = check_load.shipped_docs()
+    lrng = random.Random(seed ^ 0x10AD)
+    for name, doc in (list(docs.items()) if isinstance(docs, dict) else list(docs))[:2 if tier == "quick" else 6]:
+        variants = []
+        d = copy.deepcopy(doc)
+        d.pop("step_limit", None)
+        variants.append(("without step_limit", d))
+        d = copy.deepcopy(doc)
+        for h in d["host_configurations"].values():
+            h.pop("firewall", None)
+            h.pop("value", None)
+        variants.append(("without host firewalls / values", d))
+        for label, b in variants:
+            fps = []
+            for lim in (7, 1234):
+                a = copy.deepcopy(doc)
+                a["step_limit"] = lim
+                if not check_load.impl_load(a, "hist_a")[1]:
+                    continue
+                _, ok_, sc_ = check_load.impl_load(b, "hist_b")
+                fps.append((ok_, fingerprint(sc_) + f"|{sc_.step_limit}|{sc_.address_space_bounds}" if ok_ else sc_))
+                out["evaluations"] += 1
+            if len(fps) == 2 and fps[0] != fps[1]:
+                out["violations"].append(dict(
+                    kind="construction-history", property=pid, failing_input_found=True, signature=None,
+                    what=f"loading the document '{name}' {label} gives a different scenario depending on which document "
+                         "(step limit 7 / 1234) was loaded in the process just before",
+                    name=name, after_first=str(fps[0])[:200], after_second=str(fps[1])[:200]))
     # keep: every unknown violation (up to 5) and one witness of the known finding
     unknown = [v for v in out["violations"] if v.get("signature") is None]
     known = [v for v in out["violations"] if v.get("signature") is not None]
